@@ -83,7 +83,7 @@ PROPS = {
                              "velocity: only 'a slab/fault without velocity models leaves the velocity as it was' is asserted"]),
     "C01": dict(engine="rc", exe="c01", quick=(1, 6), thorough=(15, 16), san=dict(quick=(0.2, 6), thorough=(2, 12)),
                 assumptions=["random models are excluded (C15 covers them)", "'stand-alone' = the same entry point with a one-element list on a twin world built from the same file, plus temperature()/composition()/grains()"]),
-    "C03": dict(engine="rc", exe="c03", quick=(2, 8), thorough=(20, 16),
+    "C03": dict(engine="rc", exe="c03", quick=(1, 8), thorough=(20, 16),
                 assumptions=["'outside every feature' is established by construction (far points) or by the code's own tag == -1",
                              "background closed form evaluated in double with relative tolerance 1e-13"]),
     "C19": dict(engine="rc", exe="c19", quick=(1, 4), thorough=(12, 16), san=dict(quick=(0.1, 4), thorough=(1.5, 12)),
